@@ -794,7 +794,7 @@ impl<'a> Ctx<'a> {
     }
 
     fn comp(&mut self, depth: usize) -> Node {
-        let mut kinds = vec!["plain", "plain", "multi", "mchild"];
+        let mut kinds = vec!["plain", "plain", "multi", "mchild", "styled"];
         if self.f.model && !self.in_template {
             kinds.push("mnest");
         }
@@ -833,6 +833,10 @@ impl<'a> Ctx<'a> {
                 if self.r.chance(0.15) {
                     attrs.push(Attr { name: "mark:cm".into(), val: self.attr_val() });
                 }
+                if self.r.chance(0.2) {
+                    // properties whose names look like legacy event bindings
+                    attrs.push(Attr { name: (*self.r.pick(&["online", "bind-label"])).into(), val: AttrVal::Bind(self.top_expr()) });
+                }
                 if self.r.chance(0.1) {
                     attrs.push(Attr { name: (*self.r.pick(&["worklet:wk", "worklet:on-move"])).into(), val: AttrVal::Static((*self.r.pick(&["w1", "w2"])).into()) });
                 }
@@ -866,6 +870,14 @@ impl<'a> Ctx<'a> {
                     children.push(Node::El { tag: tag.into(), attrs: a, children: vec![Node::Text(self.text_parts())] });
                 }
                 Node::El { tag: "multi".into(), attrs, children }
+            }
+            "styled" => {
+                // a component that declares `style` (and gets it as a property, not as a style)
+                attrs.push(Attr { name: "style".into(), val: if self.r.chance(0.5) { AttrVal::Bind(self.top_expr()) } else { AttrVal::Mixed(vec![TextPart::Lit("color: ".into()), TextPart::Bind(self.top_expr())]) } });
+                if self.r.chance(0.4) {
+                    attrs.push(Attr { name: "p".into(), val: AttrVal::Bind(self.top_expr()) });
+                }
+                Node::El { tag: "styled".into(), attrs, children: vec![] }
             }
             "mnest" => {
                 // a child that writes to MEMBERS of a model-bound object property
@@ -1246,7 +1258,8 @@ fn gen_schedule(r: &mut Rng, vg: &mut ValGen, f: &Features, safe_splice: bool, p
 
 pub fn catalogue_file(kind: &str) -> TFile {
     let raw = match kind {
-        "plain" => "<text>P:{{p}}:{{q}}:{{p.x}}:{{p.k}}:{{p.y.z}}:{{q.length}}</text><slot/>",
+        "plain" => "<text>P:{{p}}:{{q}}:{{p.x}}:{{p.k}}:{{p.y.z}}:{{q.length}}:{{online}}:{{bindLabel}}</text><slot/>",
+        "styled" => "<text>Y:{{style}}:{{p}}</text>",
         "multi" => "<view id=\"sa\"><slot name=\"a\"/></view><view id=\"sb\"><slot name=\"b\"/></view><text>M:{{p}}</text><slot/>",
         "mchild" => "<text>V:{{val}}</text>",
         "dyn" => "<text>D:{{p}}</text><block wx:for=\"{{items}}\" wx:key=\"k\"><slot sv=\"{{item}}\" si=\"{{index}}\"/></block>",
@@ -1262,7 +1275,8 @@ pub fn catalogue_file(kind: &str) -> TFile {
 
 pub fn catalogue_component(kind: &str) -> Value {
     match kind {
-        "plain" => json!({"is": "plain", "path": "comp/plain", "properties": {"p": {"type": "any", "value": null}, "q": {"type": "any", "value": null}}}),
+        "plain" => json!({"is": "plain", "path": "comp/plain", "properties": {"p": {"type": "any", "value": null}, "q": {"type": "any", "value": null}, "online": {"type": "any", "value": null}, "bindLabel": {"type": "any", "value": null}}}),
+        "styled" => json!({"is": "styled", "path": "comp/styled", "properties": {"style": {"type": "any", "value": null}, "p": {"type": "any", "value": null}}}),
         "multi" => json!({"is": "multi", "path": "comp/multi", "options": {"multipleSlots": true}, "properties": {"p": {"type": "any", "value": null}}}),
         "mchild" => json!({"is": "mchild", "path": "comp/mchild", "properties": {"val": {"type": "any", "value": null}, "nval": {"type": "any", "value": null}}}),
         "dyn" => json!({"is": "dyn", "path": "comp/dyn", "options": {"dynamicSlots": true}, "properties": {"items": {"type": "any", "value": []}, "p": {"type": "any", "value": null}}}),
